@@ -110,6 +110,9 @@ def run_shard(shard, ctx):
                           "slots": slots}, ctx)
         for sectors in (1, 15, 16, 17, 40):
             run_case({"kind": "hdd", "type": "Plain", "sectors": sectors}, ctx)
+        # plain images whose guest data begins with the header of an expanding image (a raw .hds copy stored in the guest)
+        for ver in (1, 2):
+            run_case({"kind": "hdd", "type": "Plain", "sectors": 40, "nested": ver}, ctx)
 
 
 def run_case(case, ctx):
@@ -167,6 +170,9 @@ def _case_hdd(case, ctx):
         if case["type"] == "Plain":
             nsec = case["sectors"]
             data = pattern.sectors(1, 0, nsec)
+            if case.get("nested"):
+                inner = B.build_hds([DATA, HOLE, DATA], [1, None, 2], 8, case["nested"], 24, layer=7).tobytes()[: nsec * 512]
+                data = inner + data[len(inner):]
             with open(os.path.join(hd, fn), "wb") as f:
                 f.write(data)
             disk = RawDisk(data)
